@@ -167,3 +167,76 @@ Proof.
   - lia.
   - lia.
 Qed.
+
+(* ---- NUL-terminated strings and the emsg layout found from the bytes *)
+Definition no_nul (s : bytes) : Prop := Forall (fun x => x <> 0) s.
+Lemma cstr_len_app s rest : no_nul s -> cstr_len (s ++ 0 :: rest) = Some (S (length s)).
+Proof.
+  induction 1 as [|x s Hx _ IH]; cbn [app cstr_len length].
+  - reflexivity.
+  - destruct (x =? 0) eqn:E; [apply Z.eqb_eq in E; contradiction|]. rewrite IH. reflexivity.
+Qed.
+(* and conversely: a length it reports is that of a NUL-free prefix followed by the terminator *)
+Lemma cstr_len_sound : forall bs n, cstr_len bs = Some n ->
+  exists s rest, bs = s ++ 0 :: rest /\ no_nul s /\ n = S (length s).
+Proof.
+  induction bs as [|b r IH]; intros n H; cbn [cstr_len] in H; [discriminate|].
+  destruct (b =? 0) eqn:E.
+  - apply Z.eqb_eq in E. subst b. injection H as <-. exists [], r. repeat split. constructor.
+  - destruct (cstr_len r) as [m|] eqn:Er; [|discriminate]. injection H as <-.
+    destruct (IH m eq_refl) as (s & rest & -> & Hs & ->).
+    exists (b :: s), rest. repeat split. constructor; [apply Z.eqb_neq; exact E | exact Hs].
+Qed.
+Lemma skipn_S_app (s rest : bytes) : skipn (S (length s)) (s ++ 0 :: rest) = rest.
+Proof. induction s as [|x s IH]; [reflexivity | exact IH]. Qed.
+
+(* version 0: what the encoder writes for (uri, value, timescale, delta, duration, id, data) is read back with the same
+   layout, for every NUL-free uri and value and every message data *)
+Lemma emsg_layout_v0 flags s1 s2 a b c d data : no_nul s1 -> no_nul s2 ->
+  emsg_layout (be 1 0 ++ be 3 flags ++ (s1 ++ [0]) ++ (s2 ++ [0]) ++ be 4 a ++ be 4 b ++ be 4 c ++ be 4 d ++ data)
+  = Some (l_emsg 0 (S (length s1)) (S (length s2)) (length data)).
+Proof.
+  intros H1 H2. change (be 1 0) with [0]. unfold emsg_layout. cbn [be app]. cbn [Z.eqb orb skipn].
+  rewrite <- !app_assoc. cbn [app].
+  rewrite (cstr_len_app s1 _ H1), skipn_S_app, (cstr_len_app s2 _ H2).
+  do 2 f_equal. cbn [length]. rewrite !app_length. cbn [length]. rewrite !app_length. cbn [length]. lia.
+Qed.
+Lemma emsg_layout_v1 flags s1 s2 a b c d data : no_nul s1 -> no_nul s2 ->
+  emsg_layout (be 1 1 ++ be 3 flags ++ be 4 a ++ be 8 b ++ be 4 c ++ be 4 d ++ (s1 ++ [0]) ++ (s2 ++ [0]) ++ data)
+  = Some (l_emsg 1 (S (length s1)) (S (length s2)) (length data)).
+Proof.
+  intros H1 H2. change (be 1 1) with [1]. unfold emsg_layout. cbn [be app]. cbn [Z.eqb orb skipn Pos.eqb].
+  rewrite <- !app_assoc. cbn [app].
+  rewrite (cstr_len_app s1 _ H1), skipn_S_app, (cstr_len_app s2 _ H2).
+  do 2 f_equal. cbn [length]. rewrite !app_length. cbn [length]. rewrite !app_length. cbn [length]. lia.
+Qed.
+(* a string with a NUL inside is cut short by the reader: the reason the statements above need no_nul *)
+Example cstr_nul_inside : cstr_len [65; 0; 66; 0] = Some 2%nat. Proof. reflexivity. Qed.
+
+Lemma len_cstr (s : bytes) : Nat.eqb (length (s ++ [0])) (S (length s)) = true.
+Proof. apply Nat.eqb_eq. rewrite app_length. cbn [length]. lia. Qed.
+(* the whole round trip of a version 0 / version 1 event message: the reader needs nothing but the bytes *)
+Theorem emsg_selfdescribing_v0 flags s1 s2 a b c d data :
+  let l := l_emsg 0 (S (length s1)) (S (length s2)) (length data) in
+  let vs := [VU 0; VU flags; VB (s1 ++ [0]); VB (s2 ++ [0]); VU a; VU b; VU c; VU d; VB data] in
+  no_nul s1 -> no_nul s2 -> vals_ok l vs ->
+  exists bs, enc_fields l vs = Some bs /\ emsg_layout bs = Some l /\ dec_fields l bs = Some (vs, []).
+Proof.
+  intros l vs H1 H2 Hok. destruct (dec_enc l vs Hok) as (bs & Henc & Hdec). exists bs.
+  split; [exact Henc|]. split; [|specialize (Hdec []); rewrite app_nil_r in Hdec; exact Hdec].
+  unfold l, vs, l_emsg, full in Henc. cbn [Z.eqb enc_fields] in Henc.
+  rewrite !len_cstr, Nat.eqb_refl in Henc. injection Henc as <-.
+  rewrite app_nil_r. exact (emsg_layout_v0 flags s1 s2 a b c d data H1 H2).
+Qed.
+Theorem emsg_selfdescribing_v1 flags s1 s2 a b c d data :
+  let l := l_emsg 1 (S (length s1)) (S (length s2)) (length data) in
+  let vs := [VU 1; VU flags; VU a; VU b; VU c; VU d; VB (s1 ++ [0]); VB (s2 ++ [0]); VB data] in
+  no_nul s1 -> no_nul s2 -> vals_ok l vs ->
+  exists bs, enc_fields l vs = Some bs /\ emsg_layout bs = Some l /\ dec_fields l bs = Some (vs, []).
+Proof.
+  intros l vs H1 H2 Hok. destruct (dec_enc l vs Hok) as (bs & Henc & Hdec). exists bs.
+  split; [exact Henc|]. split; [|specialize (Hdec []); rewrite app_nil_r in Hdec; exact Hdec].
+  unfold l, vs, l_emsg, full in Henc. cbn [Z.eqb Pos.eqb enc_fields] in Henc.
+  rewrite !len_cstr, Nat.eqb_refl in Henc. injection Henc as <-.
+  rewrite app_nil_r. exact (emsg_layout_v1 flags s1 s2 a b c d data H1 H2).
+Qed.
